@@ -291,3 +291,68 @@ func VerifC04Bisync() {
 	}
 	verifReach("c04.bisync.done")
 }
+
+
+// VerifC20BisyncRace: the key is absent when the unit builder probes it and is created by another writer
+// before the unit's MULTI/EXEC runs (the RESTORE inside it is then refused with BUSYKEY). With policy error the
+// replay must stop with an error, with ignore the foreign value stays, with replace the snapshot's value wins.
+func VerifC20BisyncRace() {
+	verifClockNs = verifC20NowMs * 1000000
+	policy := []string{"replace", "ignore", "error"}[verifChoose("policy", 3)]
+	f := verifNewFake()
+	ro := verifBisyncLink(f, "redis-gunyu-checkpoint-bisync:aa01", config.ReplayModeSync)
+	ro.cfg.KeyExists = policy
+	ro.cfg.ReplayRdbEnableRestore = true
+	ro.cfg.MaxProtoBulkLen = 1 << 20
+	ro.cfg.Redis.Version = "7.0"
+	nPre := len(f.log)
+	at := verifRange("foreignAt", 1, verifParam("RACEREQS", 12))
+	foreignIdx := -1
+	f.onReq = func(n int) {
+		if n == at+verifC20RaceBase && foreignIdx < 0 {
+			// another client creates the key in database 0 at this moment
+			o := f.st.obj(0, "k", true)
+			o.ops = append(o.ops, "rpush foreign")
+			foreignIdx = len(f.log)
+		}
+	}
+	verifC20RaceBase = f.nReq
+	p := &verifRdbStubParser{key: []byte("k"), canRestore: true, first: true, dumpSize: 20, cmds: [][]string{{"rpush", "a"}, {"rpush", "b"}}, dump: []byte("DUMP")}
+	pipe := make(chan *rdb.BinEntry, 4)
+	pipe <- &rdb.BinEntry{DB: 0, Key: []byte("k"), Type: rdb.RdbTypeList, ObjectParser: p}
+	pipe <- &rdb.BinEntry{Done: true}
+	err := ro.rdbReplayBisync(context.Background(), "rid1", 4242, pipe)
+	f.onReq = nil
+	// where the unit's RESTORE was executed (the EXEC of its transaction)
+	execIdx, probeIdx := -1, -1
+	for i, r := range f.log[nPre:] {
+		if r.cmd == "exists" && len(r.args) > 0 && verifArgStr(r.args[0]) == "k" && probeIdx < 0 {
+			probeIdx = nPre + i
+		}
+		if r.cmd == "restore" && len(r.args) > 0 && verifArgStr(r.args[0]) == "k" {
+			for j := nPre + i; j < len(f.log); j++ {
+				if f.log[j].cmd == "exec" && f.log[j].txn == r.txn {
+					execIdx = j
+					break
+				}
+			}
+		}
+	}
+	if foreignIdx < 0 || probeIdx < 0 || execIdx < 0 || !(foreignIdx > probeIdx && foreignIdx <= execIdx) {
+		return // the foreign write did not fall between the probe and the transaction
+	}
+	verifCover(true, "c20.race.between-probe-and-exec")
+	o := f.st.obj(0, "k", false)
+	switch policy {
+	case "error":
+		verifAssert(err != nil, "C20.bisync.race.error-policy-refusal-not-reported")
+		verifAssert(o != nil && verifStrsEq(o.ops, []string{"rpush foreign"}), "C20.bisync.race.error-policy-key-modified")
+	case "ignore":
+		verifAssert(o != nil && verifStrsEq(o.ops, []string{"rpush foreign"}), "C20.bisync.race.ignore-policy-key-modified")
+	default:
+		verifAssert(err == nil && o != nil && verifStrsEq(o.ops, []string{"restore DUMP"}), "C20.bisync.race.replace-policy-value")
+	}
+	verifReach("c20.race.done")
+}
+
+var verifC20RaceBase int
